@@ -489,14 +489,14 @@ func (helloEngine) Run(t *testing.T, batch string, tape *rt.Tape, runIdx uint64,
 		errText = trunc(schemaErr.Error(), 200)
 	}
 	rec.Sample = map[string]any{"mutations": muts, "accepted": accepted, "readschema_error": errText, "operations_exercised": ops, "steps": out.Steps}
-	if out.BubblePanic != "" && !out.Deadlock {
-		rec.Outcome = "infra"
-		rec.Reason = "bubble panic: " + out.BubblePanic
-		return rec
-	}
 	if out.Budget {
 		rec.Outcome = "infra"
-		rec.Reason = "step budget exceeded"
+		rec.Reason = fmt.Sprintf("step budget exceeded (%d steps)", out.Steps)
+		return rec
+	}
+	if out.BubblePanic != "" && !out.Deadlock {
+		rec.Outcome = "infra"
+		rec.Reason = "bubble panic: " + trunc(out.BubblePanic, 3000)
 		return rec
 	}
 	seen := map[string]bool{}
